@@ -55,6 +55,9 @@ theorem C20_aligned_unix_day (fuel : Nat) (c : Cfg) (started : Bool) (rs : List 
   rw [Z_days]
   exact Int.dvd_trans hday (Int.dvd_mul_left _ _)
 
+example : subTimer ⟨60000000000, 6, 1⟩ ∣ 86400000000000 ∧
+    (startN 100 ⟨60000000000, 6, 1⟩ false [0, 70000000001] none).fires ≠ [] := by decide
+
 /-- A sub-period that does not divide `Z` (7 ms; the same holds for 7 s): no stamp is a Unix multiple.
 (Replayed on the real Engine by `ruclock --witness`, same numbers.) -/
 theorem C20_aligned_unix_counterexample :
@@ -219,6 +222,13 @@ theorem C20_stop_partial (fuel : Nat) (c : Cfg) (rs : List Int) (s : StopAt)
     exact List.drop_eq_nil_of_le this
   | inFlight k => exact absurd rfl (hs k)
 
+example : (∀ k, StopAt.beforeCheck 1 ≠ .inFlight k) := by intro k h; cases h
+example :
+    (startN 100 ⟨2000000, 1, 0⟩ false [0, 2000001, 4000001] (StopAt.beforeCheck 1).firstFalse).fires.length = 1 ∧
+    firesAfterStop (.beforeCheck 1)
+      (startN 100 ⟨2000000, 1, 0⟩ false [0, 2000001, 4000001] (StopAt.beforeCheck 1).firstFalse).fires = [] := by
+  decide
+
 /-- In the excluded window exactly the one call in flight still goes through: at most one call
 begins after `Stop` has completed. -/
 theorem C20_stop_late_bound (fuel : Nat) (c : Cfg) (rs : List Int) (s : StopAt) :
@@ -231,6 +241,9 @@ theorem C20_stop_late_bound (fuel : Nat) (c : Cfg) (rs : List Int) (s : StopAt) 
     have := (C20_stop fuel c false rs (k + 1)).1
     simp only [firesAfterStop, StopAt.firstFalse, List.length_drop]
     omega
+
+example : (firesAfterStop (.inFlight 0)
+    (startN 100 ⟨2000000, 1, 0⟩ false [0, 2000001] (StopAt.inFlight 0).firstFalse).fires).length = 1 := by decide
 
 /-- Witness: `Stop` completing while the goroutine is inside `watch.Now()` of its first stamped
 occurrence — the function is still called once, after `Stop` returned.
@@ -280,6 +293,10 @@ theorem C20_round_late (now b sub : Int) (hs : 0 < sub) (hb : (b + Z) % sub = 0)
   omega
 
 example : round 14 10 = 10 ∧ round 15 10 = 20 ∧ round 9 10 = 10 ∧ (10 + Z) % 10 = 0 := by decide
+-- hypotheses of `C20_round_intended` (b = 10, now = 14 and now = 5) and of `C20_round_late` (now = 15, 27)
+example : (0 : Int) < 10 ∧ (10 + Z) % 10 = 0 ∧ -10 ≤ 2 * ((14 : Int) - 10) ∧ 2 * ((14 : Int) - 10) < 10 ∧
+    round 14 10 = 10 ∧ round 5 10 = 10 := by decide
+example : (10 : Int) ≤ 2 * (15 - 10) ∧ round 15 10 = 20 ∧ round 27 10 = 30 ∧ (30 + Z) % 10 = 0 := by decide
 example : (startN 100 ⟨10, 1, 0⟩ false [0, 14, 26] none).fires.map Fire.stamp = [10, 30] := by decide
 
 /-! ### configurations in which nothing is ever stamped -/
